@@ -411,7 +411,36 @@ Definition leave_room (h : hub) (sid : N) (notify : bool) : hub * list out :=
 
 (* ------------------------------------------------------------------ closing a session *)
 Definition children (h : hub) (sid : N) : list N :=
-  map fst (filter (fun e => match (snd e).(s_kind) with KVirtual p _ => N.eqb p sid | _ => false end) h.(h_sessions)).
+  map fst (filter (fun e => match get_sess h (fst e) with
+                            | Some s => match s.(s_kind) with KVirtual p _ => N.eqb p sid | _ => false end
+                            | None => false end) h.(h_sessions)).
+
+(* the tables Hub.removeSession / closeAndWait clean *)
+Definition scrub (h : hub) (sid : N) : hub :=
+  let h3 := set_sessions h (adel h.(h_sessions) sid) in
+  let h4 := set_clients h3 (nrem sid h3.(h_clients)) in
+  let h5 := set_expired h4 (nrem sid h4.(h_expired)) in
+  let h6 := set_anonymous h5 (nrem sid h5.(h_anonymous)) in
+  let h7 := set_dialout h6 (nrem sid h6.(h_dialout)) in
+  set_counted h7 (map (fun e => (fst e, nrem sid (snd e))) h7.(h_counted)).
+
+(* the connection keeps running without a session *)
+Definition detach_conn (h : hub) (oc : option N) : hub :=
+  match oc with
+  | Some c => match aget h.(h_conns) c with
+              | Some cn => set_conns h (aset h.(h_conns) c (mkconn cn.(c_addr) None cn.(c_expect)))
+              | None => h end
+  | None => h
+  end.
+
+(* a virtual session's table entry goes unless a newer session with the same id replaced it already *)
+Definition drop_vt (h : hub) (k : kind) (sid : N) : hub :=
+  match k with
+  | KVirtual p v => match pget h.(h_vtable) (p, v) with
+                    | Some x => if N.eqb x sid then set_vtable h (pdel h.(h_vtable) (p, v)) else h
+                    | None => h end
+  | _ => h
+  end.
 
 (* Hub.removeSession + the rest of closeAndWait for one session (not its children) *)
 Definition close_one (h : hub) (sid : N) : hub * list out :=
@@ -425,29 +454,14 @@ Definition close_one (h : hub) (sid : N) : hub * list out :=
       let mine := filter (fun e => N.eqb (snd e).(mp_owner) sid) h2a.(h_mcupending) in
       let h2 := set_mcu h2a h2a.(h_mcutok) (filter (fun e => negb (N.eqb (snd e).(mp_owner) sid)) h2a.(h_mcupending)) h2a.(h_mcuopen) in
       let outs2 := outs2a ++ map (fun e => ToMcu (MFailed (fst e))) mine in
-      let h3 := set_sessions h2 (adel h2.(h_sessions) sid) in
-      let h4 := set_clients h3 (nrem sid h3.(h_clients)) in
-      let h5 := set_expired h4 (nrem sid h4.(h_expired)) in
-      let h6 := set_anonymous h5 (nrem sid h5.(h_anonymous)) in
-      let h7 := set_dialout h6 (nrem sid h6.(h_dialout)) in
-      let h8 := set_counted h7 (map (fun e => (fst e, nrem sid (snd e))) h7.(h_counted)) in
-      (* the connection keeps running without a session *)
-      let h9 := match s.(s_conn) with
-                | Some c => match aget h8.(h_conns) c with
-                            | Some cn => set_conns h8 (aset h8.(h_conns) c (mkconn cn.(c_addr) None cn.(c_expect)))
-                            | None => h8 end
-                | None => h8 end in
-      (* virtual session: table entry goes, the backend is told when it was in a room *)
+      let h10 := drop_vt (detach_conn (scrub h2 sid) s.(s_conn)) s.(s_kind) sid in
+      (* the backend is told when a virtual session that was in a room goes *)
       match s.(s_kind) with
       | KVirtual p v =>
-          (* the table entry goes unless a newer session with the same id replaced this one already *)
-          let h10 := match pget h9.(h_vtable) (p, v) with
-                     | Some x => if N.eqb x sid then set_vtable h9 (pdel h9.(h_vtable) (p, v)) else h9
-                     | None => h9 end in
           (h10, outs1 ++ outs2 ++ match room with
                                    | Some k => [ToBackend (s.(s_backend), 2, 3, snd k, sid, 1)]
                                    | None => [] end)
-      | _ => (h9, outs1 ++ outs2)
+      | _ => (h10, outs1 ++ outs2)
       end
   end.
 
